@@ -1,57 +1,408 @@
-import EV.Proofs.HeaderCache
+import EV.Proofs.HeaderCacheInv
 
 /-!
 # C11 — Every merkle proof the server hands out verifies against the current chain
 
+> For any indexed chain, also after reorganisations and with requests in flight while blocks are
+> undone, a transaction merkle proof (by hash or by position, classic or TSC format) folds to the
+> merkle root in the header of that block, and a header proof for (height, checkpoint height)
+> folds to the merkle root of all current block hashes up to the checkpoint; requests outside the
+> chain are refused rather than answered wrongly.
+
 Composition (DESIGN.md §6 C11):
  1. C12 (`EV/Props/C12.lean`): whatever list the server folds, the branch it returns folds to that
     list's Bitcoin merkle root — classic and TSC, direct path and `MerkleCache` path.
- 2. *Which* list: for transaction proofs the tx-hash list of the block at that height on the current
+ 2. *Which* list, transaction proofs: the tx-hash list of the block at that height on the current
     chain (tx table of the index, C02; by-height caches cleared on reorg, C10) — validated by suite
     `system` (every tx of every block, by hash and by position, classic and TSC, folded by an
     independent verifier against the header's merkle root, after every phase of every history).
- 3. Header proofs: the header merkle cache under concurrency with reorganisations — **this file**:
-    the cache stays consistent with the DB's block hashes under every interleaving of extensions in
-    flight, back-outs and new blocks, so a header proof for `(height, cp_height)` folds to the merkle
-    root of the current block hashes `0 … cp_height`.
-Tie to the code: suite `headercache` (the real `MerkleCache` with a suspending source function,
-all interleavings up to a bound) and suite `system` (real server, header-proof requests concurrent
-with reorgs, incl. the F7 interleaving as a corpus scenario).
+ 3. *Which* list, header proofs — **this file**: model `EV/Model/HeaderCache.lean`: any number of
+    concurrent `block.header(height, cp)` requests, each a program counter over the awaits of
+    `MerkleCache.branch_and_root` / `_extend_to` / `_level_for`, every read cut into issue /
+    perform in a worker thread against the hashes visible *then* / deliver; back-outs cut into
+    their two effects (lowering `DB.state`, `header_mc.truncate`) in the order of the code; new
+    blocks.  Theorems, for **all** event sequences and any number of requests:
+      * `C11_header_safe`     every answer is the from-scratch branch and Bitcoin merkle root of
+                              the first `cp+1` hashes of a chain that was visible during the request
+      * `C11_header_current`  … of the chain visible at the moment of the answer, when no back-out
+                              overlapped the request
+      * `C11_header_inv`      the cache is consistent with the visible chain whenever no back-out
+                              is half done, and with the chain before the back-out in the window
+      * `C11_header_refused`, `C11_header_never_wrong`
+                              out-of-range requests are refused; a request ends refused, with an
+                              error, or with an answer satisfying the safety clause
+      * `seen_sound`          the ghost history `Req.seen` is what it is said to be
+    and the pinned code violates the property in three ways, each fixed by its own commit:
+      * `F17_counterexample`  two extensions in flight (`_extend_to` without the `cached_length` test)
+      * `F18_counterexample`  `flush_backup` truncating before it lowers `DB.state`
+      * `F19_counterexample`  a truncation between `_extend_to` and `_level_for` of one request
+Tie to the code: suite `headercache` (the real `_merkle_proof` → `header_branch_and_root` →
+`MerkleCache` → `fs_block_hashes` → `read_headers` coroutines, reads performed and delivered under
+the control of the event sequence; the real `flush_backup` in a second thread held between its two
+effects) and suite `system` (real server).
 -/
 namespace EV.HeaderCache
 open EV.Merkle
 
 variable {Node : Type} (H : Node → Node → Node)
 
-/-- **C11 (header cache invariant).**  Start from a cache that is consistent with the DB's block
-hashes (`initialize`, C12 `cache_init`) and let *any* sequence of events happen — extension
-started by a header-proof request, its worker-thread read, its completion, a back-out of any
-number of blocks with `truncate`, new blocks — in any order, with the read and the completion of an
-extension separated by arbitrarily many other events: the cache is consistent with the DB's block
-hashes in every state reached (current code). -/
-theorem C11_header_inv (s : St Node) (evs : List (Ev Node))
-    (hc : CacheInv H s.c s.src) (hext : s.ext = none) :
-    CacheInv H (run H true s evs).c (run H true s evs).src :=
-  (inv_run H s evs ⟨hc, by simp [ExtOK, hext], by intro e he; simp [hext] at he⟩).cache
+/-! ## the ghost history is what it is said to be (every variant of the code) -/
 
-/-- **C11 (header proofs verify).**  In every reachable state, a header-proof request
-`(height, cp_height)` inside the chain (`height ≤ cp_height < number of block hashes`) answered
-through the cache returns exactly the from-scratch branch of the current first `cp_height + 1`
-block hashes and their Bitcoin merkle root. -/
-theorem C11_header_proof [DecidableEq Node] (s : St Node) (evs : List (Ev Node))
-    (hc : CacheInv H s.c s.src) (hext : s.ext = none) (height cp : Nat)
-    (hh : height ≤ cp) (hcp : cp < (run H true s evs).src.length) :
-    ((run H true s evs).c.query H (run H true s evs).src (.int (cp + 1 : Nat)) (.int height) false).2 =
-      Outcome.ofExcept (branchAndRoot H ((run H true s evs).src.take (cp + 1)) (.int height) none false) ∧
-    ∃ br hne, branchAndRoot H ((run H true s evs).src.take (cp + 1)) (.int height) none false =
-      .ok (br, merkleRoot H ((run H true s evs).src.take (cp + 1)) hne) := by
-  have hinv := C11_header_inv H s evs hc hext
-  have h1 := cache_correct H (run H true s evs).c (run H true s evs).src (cp + 1 : Nat) height false hinv
+theorem enterExtend_ghost (c : Cache Node) (T : Nat) (r : Req Node) :
+    (enterExtend c T r).seen = r.seen ∧ (enterExtend c T r).bo = r.bo ∧
+      (enterExtend c T r).length = r.length ∧ (enterExtend c T r).index = r.index := by
+  unfold enterExtend; split <;> exact ⟨rfl, rfl, rfl, rfl⟩
+
+theorem finish_ghost (cfg : Cfg) (c : Cache Node) (T : Nat) (r : Req Node)
+    (res : Except PyExc (List (Elt Node) × Node)) :
+    (finish cfg c T r res).seen = r.seen ∧ (finish cfg c T r res).bo = r.bo ∧
+      (finish cfg c T r res).length = r.length ∧ (finish cfg c T r res).index = r.index := by
+  unfold finish
+  split
+  · exact ⟨rfl, rfl, rfl, rfl⟩
+  · split
+    · exact enterExtend_ghost c T _
+    · exact ⟨rfl, rfl, rfl, rfl⟩
+
+theorem deliverReq_ghost [DecidableEq Node] (cfg : Cfg) (c : Cache Node) (T : Nat) (r : Req Node) :
+    (deliverReq H cfg c T r).2.seen = r.seen ∧ (deliverReq H cfg c T r).2.bo = r.bo ∧
+      (deliverReq H cfg c T r).2.length = r.length ∧ (deliverReq H cfg c T r).2.index = r.index := by
+  unfold deliverReq
+  repeat' split
+  all_goals first
+    | exact ⟨rfl, rfl, rfl, rfl⟩
+    | exact enterExtend_ghost c T r
+    | exact enterExtend_ghost _ T r
+    | exact finish_ghost cfg c T r _
+
+theorem performReq_ghost (c : Cache Node) (src : List Node) (r : Req Node) :
+    (performReq c src r).seen = r.seen ∧ (performReq c src r).bo = r.bo ∧
+      (performReq c src r).length = r.length ∧ (performReq c src r).index = r.index := by
+  unfold performReq; split <;> exact ⟨rfl, rfl, rfl, rfl⟩
+
+theorem see_seen (S : List Node) (r : Req Node) :
+    (r.see S).seen = r.seen ∨ ((r.see S).seen = S :: r.seen ∧ r.active = true) := by
+  unfold Req.see; split
+  · next h => exact Or.inr ⟨rfl, h⟩
+  · exact Or.inl rfl
+
+theorem markBo_seen (r : Req Node) : r.markBo.seen = r.seen := by
+  unfold Req.markBo; split <;> rfl
+
+/-- **the ghost history is sound** (every variant of the code): a new request starts with the
+singleton history `[src]`; in one step the history of an existing request either stays as it is or
+gets the *new* visible chain pushed in front, and the latter only for a request that has not
+finished.  So `seen` lists values the visible chain had between the request's start and its end. -/
+theorem seen_sound [DecidableEq Node] (cfg : Cfg) (s : St Node) (ev : Ev Node) :
+    (∀ (i : Nat) (r : Req Node), s.reqs[i]? = some r → ∃ r' : Req Node, (step H cfg s ev).reqs[i]? = some r' ∧
+      (r'.seen = r.seen ∨ (r'.seen = (step H cfg s ev).src :: r.seen ∧ r.active = true))) ∧
+    (∀ (i : Nat) (r' : Req Node), s.reqs.length ≤ i → (step H cfg s ev).reqs[i]? = some r' →
+      r'.seen = [(step H cfg s ev).src]) := by
+  have hmap : ∀ (f : Req Node → Req Node) (S : List Node),
+      (∀ r, (f r).seen = r.seen ∨ ((f r).seen = S :: r.seen ∧ r.active = true)) →
+      ∀ (i : Nat) (r : Req Node), s.reqs[i]? = some r → ∃ r' : Req Node, (s.reqs.map f)[i]? = some r' ∧
+        (r'.seen = r.seen ∨ (r'.seen = S :: r.seen ∧ r.active = true)) := by
+    intro f S hf i r hr
+    exact ⟨f r, by rw [List.getElem?_map, hr]; rfl, hf r⟩
+  have hmapnew : ∀ (f : Req Node → Req Node) (S : List Node) (i : Nat) (r' : Req Node), s.reqs.length ≤ i →
+      (s.reqs.map f)[i]? = some r' → r'.seen = [S] := by
+    intro f S i r' hi hr'
+    rw [List.getElem?_eq_none (by rw [List.length_map]; exact hi)] at hr'
+    cases hr'
+  have hsetnew : ∀ (j : Nat) (x : Req Node) (S : List Node) (i : Nat) (r' : Req Node), s.reqs.length ≤ i →
+      (s.reqs.set j x)[i]? = some r' → r'.seen = [S] := by
+    intro j x S i r' hi hr'
+    rw [List.getElem?_eq_none (by rw [List.length_set]; exact hi)] at hr'
+    cases hr'
+  have hset : ∀ (j : Nat) (r0 x : Req Node) (S : List Node), s.reqs[j]? = some r0 → x.seen = r0.seen →
+      ∀ (i : Nat) (r : Req Node), s.reqs[i]? = some r → ∃ r' : Req Node, (s.reqs.set j x)[i]? = some r' ∧
+        (r'.seen = r.seen ∨ (r'.seen = S :: r.seen ∧ r.active = true)) := by
+    intro j r0 x S hj hx i r hr
+    by_cases hij : j = i
+    · subst hij
+      rw [hj] at hr; cases hr
+      have hlt : j < s.reqs.length := by
+        by_contra hc
+        rw [List.getElem?_eq_none (by omega)] at hj; cases hj
+      exact ⟨x, by rw [List.getElem?_set_self hlt], Or.inl hx⟩
+    · exact ⟨r, by rw [List.getElem?_set_ne hij, hr], Or.inl rfl⟩
+  have hid : ∀ (i : Nat) (r : Req Node), s.reqs[i]? = some r → ∃ r' : Req Node, s.reqs[i]? = some r' ∧
+      (r'.seen = r.seen ∨ (r'.seen = s.src :: r.seen ∧ r.active = true)) :=
+    fun i r hr => ⟨r, hr, Or.inl rfl⟩
+  have hidnew : ∀ (i : Nat) (r' : Req Node), s.reqs.length ≤ i → s.reqs[i]? = some r' → r'.seen = [s.src] := by
+    intro i r' hi hr'
+    rw [List.getElem?_eq_none hi] at hr'
+    cases hr'
+  cases ev with
+  | start cp height =>
+    simp only [step]
+    refine ⟨fun i r hr => ⟨r, ?_, Or.inl rfl⟩, ?_⟩
+    · have hlt : i < s.reqs.length := by
+        by_contra hc
+        rw [List.getElem?_eq_none (by omega)] at hr; cases hr
+      rw [List.getElem?_append_left hlt, hr]
+    · intro i r' hi hr'
+      rw [List.getElem?_append_right hi] at hr'
+      cases hk : i - s.reqs.length with
+      | zero =>
+        rw [hk] at hr'
+        simp only [List.getElem?_cons_zero, Option.some.injEq] at hr'
+        subst hr'
+        unfold newReq
+        split
+        · exact (enterExtend_ghost _ _ _).1
+        · rfl
+      | succ k => rw [hk] at hr'; simp at hr'
+  | perform j =>
+    simp only [step]
+    split
+    · exact ⟨hid, hidnew⟩
+    · next r0 hj => exact ⟨hset j r0 _ _ hj (performReq_ghost _ _ _).1, hsetnew j _ _⟩
+  | deliver j =>
+    simp only [step]
+    split
+    · exact ⟨hid, hidnew⟩
+    · next r0 hj => exact ⟨hset j r0 _ _ hj (deliverReq_ghost H _ _ _ _).1, hsetnew j _ _⟩
+  | boBegin n =>
+    simp only [step]
+    split
+    · split
+      · exact ⟨hmap _ _ (fun r => by rw [markBo_seen]; exact see_seen _ r), hmapnew _ _⟩
+      · exact ⟨hmap _ _ (fun r => Or.inl (markBo_seen r)), hmapnew _ _⟩
+    · exact ⟨hid, hidnew⟩
+  | boEnd =>
+    simp only [step]
+    split
+    · exact ⟨hid, hidnew⟩
+    · split
+      · exact ⟨hmap _ _ (fun r => Or.inl (markBo_seen r)), hmapnew _ _⟩
+      · exact ⟨hmap _ _ (fun r => by rw [markBo_seen]; exact see_seen _ r), hmapnew _ _⟩
+  | append ns =>
+    simp only [step]
+    split
+    · exact ⟨hmap _ _ (fun r => see_seen _ r), hmapnew _ _⟩
+    · exact ⟨hid, hidnew⟩
+
+/-! ## safety -/
+
+/-- **C11 (header proofs verify — linearizability).**  Start from a cache that is consistent with
+the visible block hashes (`initialize`, C12 `cache_init`) and let *any* sequence of events happen:
+any number of header-proof requests started at any time, each of their reads performed by a worker
+thread at any later time and delivered at any time after that, back-outs of any number of blocks
+(the visible chain lowered, later `truncate`), new blocks — in any order.  Then every answer
+`(branch, root)` a request for `(length = cp+1, index = height)` returns is exactly the
+from-scratch `branch_and_root` of `S[:length]` at `index`, for a chain `S` that was the visible chain
+at some moment between the request's start and its answer (`S ∈ seen`, see `seen_sound`) and that
+reaches the checkpoint (`length ≤ len S`); in particular `root` is the Bitcoin merkle root of the
+first `cp+1` block hashes of that chain (and by C12 `bar_fold` the branch folds to it). -/
+theorem C11_header_safe [DecidableEq Node] (s : St Node) (evs : List (Ev Node)) (h0 : Init H s) :
+    ∀ r ∈ (run H Cfg.fixed s evs).reqs, ∀ br root, r.pc = .done (.answer br root) →
+      ∃ S ∈ r.seen, r.length ≤ S.length ∧
+        branchAndRoot H (S.take r.length) (.int r.index) none false = .ok (br, root) ∧
+        ∃ hne, root = merkleRoot H (S.take r.length) hne := by
+  intro r hr br root hpc
+  have hsafe := ((inv_run H s evs h0.inv).reqs r hr).safe
+  unfold Req.Safe at hsafe
+  rw [hpc] at hsafe
+  obtain ⟨S, hS, hlen, hbar⟩ := hsafe
+  refine ⟨S, hS, hlen, hbar, ?_⟩
+  obtain ⟨h1, h2⟩ := branchAndRoot_ok_range H hbar
+  have hidx : r.index < (S.take r.length).length := by omega
+  obtain ⟨br', hbr'⟩ := bar_root H (S.take r.length) r.index false hidx
+  rw [hbar] at hbr'
+  injection hbr' with hbr'
+  injection hbr' with _ hroot
+  exact ⟨_, hroot⟩
+
+/-- **C11 (no back-out overlapping the request: the current chain).**  If no back-out was half
+done, began or ended while the request was active (`bo = false`), its answer is the from-scratch
+branch and root of the first `cp+1` hashes of the chain visible *at the moment of the answer* (the
+head of the history), which reaches the checkpoint. -/
+theorem C11_header_current [DecidableEq Node] (s : St Node) (evs : List (Ev Node)) (h0 : Init H s) :
+    ∀ r ∈ (run H Cfg.fixed s evs).reqs, ∀ br root, r.pc = .done (.answer br root) → r.bo = false →
+      ∀ cur, r.seen.head? = some cur → r.length ≤ cur.length ∧
+        branchAndRoot H (cur.take r.length) (.int r.index) none false = .ok (br, root) := by
+  intro r hr br root hpc hbo cur hcur
+  obtain ⟨S, hS, hlen, hbar, _⟩ := C11_header_safe H s evs h0 r hr br root hpc
+  have hpre := ((inv_run H s evs h0.inv).reqs r hr).nobo hbo S hS cur hcur
+  exact ⟨by have := hpre.length_le; omega, by rw [take_of_prefix hpre hlen]; exact hbar⟩
+
+/-! ## cache invariant -/
+
+/-- **C11 (header cache invariant).**  In every reachable state — any number of extensions in
+flight —: when no back-out is half done the cache is consistent with the visible block hashes
+(`CacheInv`: its level is level `depth_higher` of the tree of the first `length` visible hashes);
+between the two halves of a back-out to `n` hashes it is consistent with the reference chain `ref`,
+of which the visible chain is the first `n` hashes (the cache may still cover hashes that are no
+longer visible; the pending `truncate` removes them).  `ref_window` below: `ref` is the chain that
+was visible before the back-out began. -/
+theorem C11_header_inv [DecidableEq Node] (s : St Node) (evs : List (Ev Node)) (h0 : Init H s) :
+    ((run H Cfg.fixed s evs).pending = none →
+      CacheInv H (run H Cfg.fixed s evs).c (run H Cfg.fixed s evs).src) ∧
+    (∀ n, (run H Cfg.fixed s evs).pending = some n →
+      CacheInv H (run H Cfg.fixed s evs).c (run H Cfg.fixed s evs).ref ∧
+      (run H Cfg.fixed s evs).src = (run H Cfg.fixed s evs).ref.take n ∧
+      0 < n ∧ n < (run H Cfg.fixed s evs).ref.length) := by
+  have hinv := inv_run H s evs h0.inv
+  exact ⟨fun hp => by have := hinv.cache; rw [hinv.quiet hp] at this; exact this,
+    fun n hn => ⟨hinv.cache, hinv.half n hn⟩⟩
+
+/-- the reference chain of the half-done window: when a back-out begins in a state satisfying the
+invariant, `ref` is (and stays) the chain that was visible before; no event inside the window
+changes it -/
+theorem ref_window [DecidableEq Node] (s : St Node) (hinv : Inv H s) :
+    (∀ n, s.pending = none → (step H Cfg.fixed s (.boBegin n)).ref = s.src) ∧
+    (∀ ev n n', s.pending = some n → (step H Cfg.fixed s ev).pending = some n' →
+      (step H Cfg.fixed s ev).ref = s.ref) := by
+  refine ⟨fun n hp => ?_, fun ev n n' hp hp' => ?_⟩
+  · simp only [step]
+    split
+    · simp only [fixed_lowerFirst, if_true]; exact hinv.quiet hp
+    · exact hinv.quiet hp
+  · cases ev with
+    | start cp height => rfl
+    | perform i => simp only [step]; split <;> rfl
+    | deliver i => simp only [step]; split <;> rfl
+    | boBegin m => simp only [step, hp]; simp
+    | boEnd => simp only [step, hp, fixed_lowerFirst, if_true] at hp'; cases hp'
+    | append ns => simp only [step, hp]; simp
+
+/-- **C11 (quiescent header proof).**  In every reachable state in which no back-out is half done,
+a header-proof request `(height, cp_height)` inside the chain answered atomically through the cache
+returns exactly the from-scratch branch of the current first `cp_height + 1` block hashes and
+their Bitcoin merkle root. -/
+theorem C11_header_proof [DecidableEq Node] (s : St Node) (evs : List (Ev Node)) (h0 : Init H s)
+    (hq : (run H Cfg.fixed s evs).pending = none) (height cp : Nat)
+    (hh : height ≤ cp) (hcp : cp < (run H Cfg.fixed s evs).src.length) :
+    ((run H Cfg.fixed s evs).c.query H (run H Cfg.fixed s evs).src (.int (cp + 1 : Nat)) (.int height) false).2 =
+      Outcome.ofExcept (branchAndRoot H ((run H Cfg.fixed s evs).src.take (cp + 1)) (.int height) none false) ∧
+    ∃ br hne, branchAndRoot H ((run H Cfg.fixed s evs).src.take (cp + 1)) (.int height) none false =
+      .ok (br, merkleRoot H ((run H Cfg.fixed s evs).src.take (cp + 1)) hne) := by
+  have hinv := (C11_header_inv H s evs h0).1 hq
+  have h1 := cache_correct H (run H Cfg.fixed s evs).c (run H Cfg.fixed s evs).src (cp + 1 : Nat) height false hinv
     (by omega) (by simp; omega) (by omega)
   refine ⟨by simpa using h1.1, ?_⟩
-  have hlen : height < ((run H true s evs).src.take (cp + 1)).length := by
+  have hlen : height < ((run H Cfg.fixed s evs).src.take (cp + 1)).length := by
     simp only [List.length_take]; omega
-  obtain ⟨br, hbr⟩ := bar_root H ((run H true s evs).src.take (cp + 1)) height false hlen
+  obtain ⟨br, hbr⟩ := bar_root H ((run H Cfg.fixed s evs).src.take (cp + 1)) height false hlen
   exact ⟨br, _, hbr⟩
+
+/-! ## refusal -/
+
+/-- **C11 (requests outside the chain are refused).**  Whatever the variant of the code: a request
+whose checkpoint is beyond the visible chain (or below its height) at the range check is refused at
+once and changes nothing else; a request inside is not refused. -/
+theorem C11_header_refused [DecidableEq Node] (cfg : Cfg) (s : St Node) (cp height : Nat) :
+    (step H cfg s (.start cp height)).c = s.c ∧
+    (step H cfg s (.start cp height)).truncations = s.truncations ∧
+    (step H cfg s (.start cp height)).src = s.src ∧
+    ∃ r, (step H cfg s (.start cp height)).reqs = s.reqs ++ [r] ∧ r.length = cp + 1 ∧ r.index = height ∧
+      (¬ (height ≤ cp ∧ cp < s.src.length) → r.pc = .done .refused) ∧
+      ((height ≤ cp ∧ cp < s.src.length) → r.active = true) := by
+  refine ⟨rfl, rfl, rfl, _, rfl, ?_⟩
+  unfold newReq
+  split
+  · next hin =>
+    refine ⟨(enterExtend_ghost _ _ _).2.2.1, (enterExtend_ghost _ _ _).2.2.2, fun h => absurd hin h, fun _ => ?_⟩
+    unfold beginIter enterExtend
+    split <;> rfl
+  · next hout => exact ⟨rfl, rfl, fun _ => rfl, fun h => absurd h hout⟩
+
+/-- **C11 (never a wrong answer).**  However a request ends — in every reachable state — it was
+refused, it failed with an error, or it returned an answer that satisfies the safety clause. -/
+theorem C11_header_never_wrong [DecidableEq Node] (s : St Node) (evs : List (Ev Node)) (h0 : Init H s) :
+    ∀ r ∈ (run H Cfg.fixed s evs).reqs, ∀ res, r.pc = .done res →
+      res = .refused ∨ (∃ e, res = .error e) ∨
+      ∃ br root, res = .answer br root ∧ ∃ S ∈ r.seen, r.length ≤ S.length ∧
+        branchAndRoot H (S.take r.length) (.int r.index) none false = .ok (br, root) := by
+  intro r hr res hpc
+  cases res with
+  | refused => exact Or.inl rfl
+  | error e => exact Or.inr (Or.inl ⟨e, rfl⟩)
+  | answer br root =>
+    obtain ⟨S, hS, hlen, hbar, _⟩ := C11_header_safe H s evs h0 r hr br root hpc
+    exact Or.inr (Or.inr ⟨br, root, rfl, S, hS, hlen, hbar⟩)
+
+/-! ## non-vacuity, and the three ways the pinned code violates the property -/
+
+/-- Cantor pairing: an *injective* stand-in for the hash on `Nat`, so two different trees have
+different roots -/
+def Hc (a b : Nat) : Nat := (a + b) * (a + b + 1) / 2 + b
+
+def src9 : List Nat := [10, 11, 12, 13, 14, 15, 16, 17, 18]
+
+/-- nine visible block hashes, the cache initialised by the real `initialize(4)`
+(`depth_higher = 1`: segments of two) -/
+def s9 : St Nat := { c := (({} : Cache Nat).init Hc src9 4).1, src := src9, ref := src9 }
+
+/-- the hypothesis `Init` of the theorems is satisfiable (C12 `cache_init`) -/
+theorem s9_init : Init Hc s9 :=
+  ⟨(cache_init Hc {} src9 4 (by decide) (by decide)).2, rfl, rfl, rfl⟩
+
+instance (r : Req Nat) : Decidable (r.Safe Hc) := by
+  unfold Req.Safe
+  split <;> infer_instance
+
+/-- F17: A = `block.header(0, cp=8)` and B = `block.header(0, cp=5)` both above the cache (4): both
+extension reads in flight; A's `_extend_to(9)` finishes, then B's shorter one. -/
+def evsF17 : List (Ev Nat) :=
+  [.start 8 0, .start 5 0, .perform 0, .perform 1, .deliver 0, .deliver 1,
+   .perform 0, .deliver 0, .perform 0, .deliver 0]
+
+/-- **F17 (pinned `_extend_to`: no `cached_length` test).**  B's extension writes
+`level[2:] = level(h4,h5)` and `length = 6` over A's longer one; A's `_level_for(9)` then takes
+`level[:4]` of a 3-entry level and returns a root over the hashes 0–5 and 8: not the root of any
+chain.  (`lowerFirst`, `retry` as in the current code: no reorganisation is involved.) -/
+theorem F17_counterexample :
+    (run Hc { extFix := false } s9 evsF17).reqs.map (fun r => decide (r.Safe Hc)) = [false, true] ∧
+    (run Hc { extFix := false } s9 evsF17).c.length = 6 := by decide
+
+/-- F18: a back-out to 7 hashes begins; a request for `cp = 8` starts between its two halves,
+extends the cache, the back-out ends, two new blocks arrive, a second request for `cp = 8`. -/
+def evsF18 : List (Ev Nat) :=
+  [.boBegin 7, .start 8 0, .perform 0, .deliver 0, .boEnd, .append [27, 28],
+   .perform 0, .deliver 0, .perform 0, .deliver 0,
+   .start 8 0, .perform 1, .deliver 1, .perform 1, .deliver 1, .perform 1, .deliver 1]
+
+/-- **F18 (pinned `flush_backup`: `truncate` before `DB.state` is lowered).**  The request
+started in the window passes the range check against the not-yet-lowered state, re-reads the
+hashes being undone and stores them (`truncate` already ran, so neither `truncations` test fires);
+the cache keeps orphaned hashes in a quiescent state, and the *next* request is answered with a root
+over them. -/
+theorem F18_counterexample :
+    (run Hc { lowerFirst := false } s9 evsF18).reqs.map (fun r => decide (r.Safe Hc)) = [true, false] ∧
+    (run Hc { lowerFirst := false } s9 evsF18).pending = none ∧
+    (run Hc { lowerFirst := false } s9 evsF18).src = [10, 11, 12, 13, 14, 15, 16, 27, 28] ∧
+    (run Hc { lowerFirst := false } s9 evsF18).c.level ≠
+      lvl Hc 1 ((run Hc { lowerFirst := false } s9 evsF18).src.take 9) := by decide
+
+/-- F19: one request for `cp = 8`; its extension completes (cache 9); while it waits for its leaf
+hashes a back-out to 5 hashes truncates the cache to 4 and four new blocks arrive. -/
+def evsF19 : List (Ev Nat) :=
+  [.start 8 1, .perform 0, .deliver 0, .boBegin 5, .boEnd, .append [25, 26, 27, 28],
+   .perform 0, .deliver 0, .perform 0, .deliver 0]
+
+/-- **F19 (pinned `branch_and_root`: one pass, no truncation check).**  `_level_for(9)` takes
+`self.level[:4]` from the truncated 2-entry level and appends the final partial segment: a root over
+the hashes 0–3 and 8; the "leaf hashes inconsistent with level" check passes because the leaf's own
+segment is intact. -/
+theorem F19_counterexample :
+    (run Hc { retry := false } s9 evsF19).reqs.map (fun r => decide (r.Safe Hc)) = [false] := by decide
+
+/-- the same three schedules under the current code: every request that has ended is safe (as the
+theorem says), and answers do occur (the theorem is not vacuous) -/
+example :
+    (run Hc Cfg.fixed s9 evsF17).reqs.map (fun r => (decide (r.Safe Hc), r.active)) = [(true, false), (true, true)] ∧
+    (run Hc Cfg.fixed s9 evsF18).reqs.map (fun r => (decide (r.Safe Hc), r.active)) = [(true, false), (true, false)] ∧
+    (run Hc Cfg.fixed s9 (evsF19 ++ [.perform 0, .deliver 0, .perform 0, .deliver 0])).reqs.map
+      (fun r => (decide (r.Safe Hc), r.active, r.bo)) = [(true, false, true)] := by decide
+
+/-- `C11_header_current` is not vacuous: a request that no back-out overlapped, answered -/
+example : (run Hc Cfg.fixed s9 [.start 8 0, .perform 0, .deliver 0, .perform 0, .deliver 0]).reqs.map
+    (fun r => (r.bo, r.active, r.seen.head?)) = [(false, false, some src9)] := by decide
+
+/-- the refusal clause is not vacuous -/
+example : (step Hc Cfg.fixed s9 (.start 9 0)).reqs.map (·.pc) = [.done .refused] ∧
+    (step Hc Cfg.fixed s9 (.start 3 4)).reqs.map (·.pc) = [.done .refused] := by decide
 
 end EV.HeaderCache
